@@ -485,8 +485,23 @@ def rule_r10(ctx):
     f = ctx.repo.func("onnx_ir._io:save")
     ctx.require("external_data" in f.params, "save(): external_data parameter not found")
     cfg = CFG(f.node)
-    branch = [n for n in own_nodes(f.node) if isinstance(n, ast.If) and isinstance(n.test, ast.Compare) and norm(n.test) == "external_data is not None"
-              and any(dotted_of(c.func) is not None and (dotted_of(c.func) or "").endswith("unload_from_model") for st in n.body for c in ast.walk(st) if isinstance(c, ast.Call))]
+    # the arm of `if external_data is (not) None` that handles the external-data case, whichever way round the test is written
+
+    def has_unload(stmts):
+        return any(isinstance(c, ast.Call) and (dotted_of(c.func) or "").endswith("unload_from_model") for st in stmts for c in ast.walk(st))
+
+    class _Arm:
+        def __init__(self, node, body):
+            self.node, self.body = node, body
+            self.lineno, self.col_offset = node.lineno, node.col_offset
+
+    branch = []
+    for n in own_nodes(f.node):
+        if isinstance(n, ast.If) and any(isinstance(x, ast.Name) and x.id == "external_data" for x in ast.walk(n.test)) \
+                and any(isinstance(x, ast.Constant) and x.value is None for x in ast.walk(n.test)):
+            arm = n.body if has_unload(n.body) else (n.orelse if has_unload(n.orelse) else None)
+            if arm:
+                branch.append(_Arm(n, arm))
     ctx.require(len(branch) == 1, "save(): the external-data branch that calls unload_from_model was not found")
     calls = [c for st in branch[0].body for c in ast.walk(st) if isinstance(c, ast.Call) and (dotted_of(c.func) or "").endswith("unload_from_model")]
     via = {n.id for c in calls for n in cfg.nodes_containing(c)}
@@ -500,7 +515,7 @@ def rule_r10(ctx):
             if rn and not cfg.all_paths_through(start, via, {rn[0].id}, exc=False):
                 bad = r
                 break
-    ctx.check("R10", "save(): every normal exit of the external-data branch passes unload_from_model", ok, f, bad if bad is not None else branch[0],
+    ctx.check("R10", "save(): every normal exit of the external-data branch passes unload_from_model", ok, f, bad if bad is not None else branch[0].node,
               "save(external_data=…) can finish without calling unload_from_model: initializers that are already external and at or below "
               "the size threshold are then not loaded and stored inline but written with their old external reference, so after loading "
               "the saved model they are external (or unreadable, if the old data file is not next to the new model)",
